@@ -33,7 +33,9 @@ Semantics assumed for numpy on float64 arrays (part of the trusted base, exercis
   `table[i]` for a concrete 1-D float table is `List.getD [t0, t1, …] i 0` ONLY when every such value is a valid
   non-negative position of the table (so the default is never read and numpy's negative-index wrap-around cannot occur);
   `np.full(shape, v)` is `v` element-wise (the shape is not evaluated: every symbolic array of one function has the same
-  shape, which is the translator's standing element-wise assumption); `np.empty_like` reads as 0 until it is overwritten.
+  shape, which is the translator's standing element-wise assumption); `np.empty_like` has unspecified contents until it is
+  overwritten (see the optical-kernel paragraph below; before that extension it was read as 0, which let a definition depend on
+  a value the code never defines).
   Closures (`FnSpec.outer`): for `qualname = "outer.inner"` the statements of `outer` that precede `def inner` are executed
   first (with `outer`'s parameters bound to the concrete values of `FnSpec.outer`); `inner` is translated in that environment.
   `np.linspace(lo, hi, n)` (concrete n; only with `FnSpec.ideal_linspace`) is idealised, like `np.radians`: it is the list
@@ -53,6 +55,9 @@ Semantics assumed for numpy on float64 arrays (part of the trusted base, exercis
   A callee read with a sub-spec uses the sub-spec's declarations only, except that `np.inf` stays the caller's input when the
   sub-spec names none.  Integer indices, idealised grids, table reads, the prelude import and `Nat` results work the same
   inside a callee; `outer` and `also_return` concern the translated function itself, a nested function is never a callee.
+  The numeric conventions `scalar_pow` and `clip_ite` follow the same rule (inherited without a sub-spec, the sub-spec's own
+  with one); `scalars` and `bool_inputs` are names of inputs of the generated definition and hold in every callee; `reductions`,
+  `sym_kwargs`, `locals_out`, `on_kept`, `kept_view`, `fragment`, `skip`, `sym_locals` concern the translated function itself.
   The names of a per-call-site `opaque` list are consumed once, in the order in which the sites are first reached, across the
   caller and every callee that inherits the list; keyword arguments that a callee collects in `**kwargs` are passed on to it.
   A choice between two integers (`np.where(c, 1, 0)`, a mask store of an integer into an integer) is an index only when no
@@ -61,6 +66,55 @@ Semantics assumed for numpy on float64 arrays (part of the trusted base, exercis
   driver passes IEEE +inf for it, the theorems treat it as a real number with the stated hypotheses.
   `FnSpec.exact_consts`: concrete floats that come from the live module (module-level tables and constants; NOT the literals
   spelled in the function itself) are emitted as the exact double `Scalar.dy m e = m·2^e` instead of the shortest decimal.
+
+Extensions used by the geometry cluster (C01/C02/C03/C13), all opt-in through `FnSpec` fields so that existing specs keep
+their reading:
+  * `scalar_pow` + `scalars`: numpy float64 *scalars* and Python floats evaluate `x**k` with libm `pow` (measured: 164 of
+    200000 squares differ from `x*x`), arrays evaluate `x**2` as `x*x`.  Inputs listed in `scalars` (and every constant)
+    are 0-d; a value computed from 0-d values only is 0-d (`np.where` returns an array and is not); for a 0-d base
+    `x**k` becomes `Scalar.pow x k`.
+  * `clip_ite`: `np.clip(x,lo,hi)` as `if x < lo then lo else if hi < x then hi else x` (NaN passes through as in numpy;
+    the default `min(max(x,lo),hi)` built from `Scalar.minS/maxS` maps NaN to `hi`).
+  * `inline_self`: `self.method(args)` where `method` is an undecorated method of the same class in the source is inlined
+    from the class source, on the SAME object state (it sees what the caller stored on `self` so far; no live object is
+    needed) — the general inlining of working-tree callees above reads a callee on a fresh state; `isinstance(x, T)` of a symbolic float array is False for non-array types
+    (int, str, bool, None, dict, …) and True for `np.ndarray`; `u.shape[0]` of a parameter declared as an unpacked tuple
+    of k arrays is k; a call none of whose evaluated arguments is symbolic is evaluated live (except casts and
+    arithmetic functions of float constants, which are not folded: optical-kernel paragraph below); attribute reads of a
+    concrete object reached through a stored attribute (`self.config.simulation.mode`) are evaluated live.
+  * `reductions` (`np.sum`, `np.var`, `np.count_nonzero` over a symbolic array): the reduction is SPLIT — its argument
+    (the per-element term at that point of the function) is exported as the output `<name><k>Arg`, its value enters as
+    the fresh 0-d input `<name><k>` (k = occurrence in source order).  The result is then a structure of the exported terms
+    and the returned values `ret0 …`.  Every declared reduction of the function body must be reached exactly once per path.
+  * `bool_inputs`: inputs (attribute paths, opaque results) that are Boolean arrays; `sym_kwargs`: symbolic entries of
+    `**kwargs`; an opaque callee may be declared with a dict `{attribute path: input}` (`local_coords.alt.rad`).
+  * `locals_out`: named locals of a method that returns nothing are exported next to what it stores.
+  * masked reads `x[m]` are the per-kept-element view: values computed from them stay on the kept elements (`x[h][v]`
+    records both masks), combining reads under different masks is refused, a mask computed on a compressed array may
+    index / be stored into that array only, and a returned or stored masked value is exported as its value on a kept element.
+    That last reading — the definition describes ONE element that every mask keeps — is opt-in (`FnSpec.kept_view`); without
+    it the compress reading of the optical-kernel paragraph below applies and any other masked result is Unsupported.
+
+  Extensions (optical kernel): `np.power(x, 2) = x*x` like `x**2` (bit-identical in numpy's float64 loop), `np.power(x, 0.5)
+  = sqrt x`.  A `dtype=` keyword is accepted only when it is binary64 (`float`, `np.float64`): single-precision arithmetic
+  is not modelled, so a kernel whose working dtype is float32 is Unsupported (translate an instance built in double
+  precision).  Casts of literals (`float(1e3)`, `self.dtype(-1.0e-5)`, `self.dtype(3 / 2)`) and arithmetic spelled as a
+  function on constants (`np.reciprocal(-6.34)`, `np.divide(a, b)`) are not folded, like `a / b` between constants: over
+  the reals they mean the exact quotient, not the rounded double; `float(1)` is `1.0`.
+  `np.empty_like(x)` / `np.empty(..)` is an array of UNSPECIFIED contents: it only gets values through later Boolean-mask
+  stores.  Stores under `m` and then under `~m` define it everywhere (`where(m, a, b)`); otherwise, when it is read, what
+  no store has defined is a fresh input `<name>Uninit` of the generated definition (the bridging theorem must then hold
+  whatever the memory held).  `np.full(shape, v)` is `v`.
+  Broadcasting views `x[..., None]`, `x[None, :]`, `x[:, None]`, `x[:]` are the identity in the elementwise reading.
+  `x[i]` where `i` is declared as `pytrans.INDEX` in `concrete`: the input named for `x` IS the selected element.
+  `return x[m], y[m]` (compress under one mask) is read per element as `(m, x, y)`: the element is kept iff `m` (the default
+  reading of a masked result: it keeps the information which elements survive; `FnSpec.kept_view` selects the per-kept-element
+  reading of the geometry cluster instead).
+  `FnSpec.fragment = (first, last)` translates only the top-level statements from the first one that assigns the local
+  `first` through the last one that assigns `last` (None = from the start / to the end); `FnSpec.skip = (first, last)`
+  leaves such a range out: every local assigned inside it is forgotten (reading it afterwards is Unsupported) unless it is
+  declared in `sym_locals` (python local -> lean name), which makes it a fresh input standing for what the skipped code
+  computed.  Early `return`s inside a skipped range are not part of the translated path.
 
 What is NOT translated (raises `Unsupported`, i.e. the regeneration fails and the tie is reported broken): loops over
 symbolic data, reductions over an axis of unknown length, fancy indexing, try/with, raise on a symbolic path, calls into third-party code with symbolic
@@ -88,8 +142,9 @@ class Unsupported(Exception):
 class Sym:
     """a real-valued (elementwise) symbolic value; `lean` is an atom or a parenthesised expression"""
 
-    def __init__(self, lean: str):
+    def __init__(self, lean: str, scalar: bool = False):
         self.lean = lean
+        self.scalar = scalar   # 0-d (numpy scalar / Python float): matters for `**` when FnSpec.scalar_pow is set
 
     def __repr__(self):
         return f"Sym({self.lean})"
@@ -117,11 +172,57 @@ class Poison:
         self.name = name
 
 
-class Masked:
-    """`x[mask]` read: the value of x where the mask holds (elementwise view)"""
+class Partial:
+    """an array of unspecified contents (`np.empty_like`) with the Boolean-mask stores made so far: [(mask, value)]"""
 
-    def __init__(self, val, mask: SymB):
-        self.val, self.mask = val, mask
+    def __init__(self, stores=()):
+        self.stores = list(stores)
+
+
+class _Index:
+    """marker for an integer index parameter: `x[i]` is the input that stands for `x` (the selected element)"""
+
+    def __repr__(self):
+        return "INDEX"
+
+
+INDEX = _Index()
+
+
+class Masked:
+    """`x[mask]` read: the value of x where the mask holds (elementwise view of the compressed array).  Values computed
+    from masked reads stay masked (same kept elements); `x[h][v]` records both masks (`outer` = the masks applied before)."""
+
+    def __init__(self, val, mask: SymB, outer: tuple = ()):
+        if isinstance(val, Masked):
+            outer, val = val.masks(), val.val
+        if isinstance(mask, Masked):
+            mask = mask.val
+        self.val, self.mask, self.outer = val, mask, tuple(outer)
+
+    def masks(self):
+        return self.outer + (self.mask.lean,)
+
+    def like(self, val):
+        return Masked(val, self.mask, self.outer)
+
+
+class OpaqueObj:
+    """result of an opaque callee declared with attribute paths: `obj.alt.rad` is the input named for `alt.rad`"""
+
+    def __init__(self, paths: dict, prefix: str = ""):
+        self.paths, self.prefix = paths, prefix
+
+
+class _Unknown:
+    """a quantity the translator does not know (the event count of an array): any use in a formula is refused"""
+
+    def __repr__(self):
+        return "<unknown>"
+
+
+UNKNOWN = _Unknown()
+
 
 
 class SymI:
@@ -181,7 +282,10 @@ UNARY = {np.sqrt: "Scalar.sqrt", np.sin: "Scalar.sin", np.cos: "Scalar.cos", np.
          math.radians: "Scalar.radians", math.degrees: "Scalar.degrees"}
 IDEALISED = {np.radians, np.deg2rad, np.degrees, np.rad2deg, math.radians, math.degrees}
 IDENTITY = {builtins.float, np.float64, np.asarray, np.array, np.atleast_1d, np.copy, np.double}
-BINARY = {np.arctan2: "Scalar.atan2", math.atan2: "Scalar.atan2", np.power: "Scalar.pow", math.pow: "Scalar.pow",
+CASTS = {builtins.float, np.float64, np.double}
+ARITH_FUNCS = {np.reciprocal, np.square, np.multiply, np.add, np.subtract, np.divide, np.true_divide, np.negative}
+DOUBLE_DTYPES = (None, builtins.float, np.float64, np.double, "float64", "f8", "d")
+BINARY = {np.arctan2: "Scalar.atan2", math.atan2: "Scalar.atan2",
           np.maximum: "Scalar.maxS", np.minimum: "Scalar.minS", np.fmax: "Scalar.maxS", np.fmin: "Scalar.minS",
           np.multiply: "*", np.add: "+", np.subtract: "-", np.divide: "/", np.true_divide: "/"}
 
@@ -278,13 +382,33 @@ class FnSpec:
                   with its own declarations, whose fresh inputs become inputs of this definition (only its sym_attrs/
                   opaque/opaque_locals/opaque_reads/inline/inf_name/exact_consts/ideal_linspace are used; when it names
                   no `inf_name`, `np.inf` stays this spec's input).
-    outputs     : for methods that store on self and return nothing: the attributes to export (ordered); None = all stored
+    outputs     : for methods that store on self and return nothing: the attributes to export (ordered); None = all stored;
+                  for a fragment that does not end in the function's `return`: the locals to export (ordered)
     inf_name    : lean name of an extra input standing for `np.inf`
     exact_consts: emit concrete floats of the live module as exact doubles (`Scalar.dy m e`)
     outer       : for a nested function (`qualname = "outer.inner"`): concrete values of the parameters of `outer`
     opaque_reads: concrete array name -> lean name of the fresh input standing for a read at symbolic indices
     also_return : names of locals to return in front of the result
     ideal_linspace: read `np.linspace` as the idealised grid of the prelude instead of evaluating it in the live module
+    scalars     : lean input names that are 0-d (numpy scalars / Python floats); only read when `scalar_pow` is set
+    scalar_pow  : `x**k` of a 0-d value is libm `pow` (`Scalar.pow x k`) instead of `x*x` / `sqrt x`
+    clip_ite    : `np.clip` as nested `if` (NaN passes through) instead of `minS (maxS x lo) hi`
+    bool_inputs : lean input names that are Boolean (arrays)
+    sym_kwargs  : key of `**kwargs` -> lean name (concrete entries: `concrete[<name of the ** parameter>] = {...}`)
+    reductions  : dotted callee text (`np.sum`) -> lean base name; see the module docstring
+    locals_out  : local variables whose final value is exported next to the stored attributes (methods that return nothing)
+    on_kept     : python parameter -> tuple of mask attribute paths (each in `sym_attrs`, Boolean): the caller passes this
+                  array already compressed to the elements those masks keep (`triggers` of `mcintegral` has one entry per
+                  event of `self.event_mask`), so it combines with `x[self.event_mask]` reads
+    opaque      : a value may also be a dict {attribute path: lean name} for a callee returning an object
+    inline_self : inline `self.method(...)` calls from the class source on the same object state (see the module docstring)
+    kept_view   : the definition describes ONE element that every mask of the function keeps: a returned or stored masked
+                  value (`x[m]`, or computed from such reads) is exported as its value on a kept element.  Without it
+                  `return x[m], y[m]` under one mask is `(m, x, y)` and any other masked result is Unsupported.
+    fragment    : (first, last) local names delimiting the translated top-level statements (see the module docstring)
+    skip        : (first, last) local names delimiting a range of top-level statements that is left out
+    sym_locals  : python local -> lean name: inputs standing for locals computed by code that is not translated
+                  (before a fragment, or inside a skipped range)
     """
     module: str
     qualname: str
@@ -304,6 +428,19 @@ class FnSpec:
     opaque_reads: dict = field(default_factory=dict)   # python name of a concrete array -> lean name of the input standing for `array[i, j]`
     also_return: tuple = ()                             # locals returned in front of the function's own result
     ideal_linspace: bool = False                        # `np.linspace(lo, hi, n)` is the idealised list `Np.linspace lo hi n`
+    scalars: tuple = ()
+    scalar_pow: bool = False
+    clip_ite: bool = False
+    bool_inputs: tuple = ()
+    sym_kwargs: dict = field(default_factory=dict)
+    reductions: dict = field(default_factory=dict)
+    locals_out: tuple = ()
+    on_kept: dict = field(default_factory=dict)
+    inline_self: bool = False
+    kept_view: bool = False
+    fragment: tuple | None = None
+    skip: tuple | None = None
+    sym_locals: dict = field(default_factory=dict)
 
     def __post_init__(self):
         if isinstance(self.inline, str):
@@ -351,16 +488,20 @@ class Result:
         out = []
         if isinstance(self.ret, dict):
             sn = s.name[0].upper() + s.name[1:] + "Out"
-            out.append(f"/-- everything `{s.qualname}` stores on the object -/\nstructure {sn} (α : Type) where")
+            what = (f"the per-element terms under the split reductions of `{s.qualname}` and its returned values" if s.reductions
+                    else f"the locals exported from the translated fragment of `{s.qualname}`" if s.fragment is not None
+                    else f"everything `{s.qualname}` stores on the object")
+            out.append(f"/-- {what} -/\nstructure {sn} (α : Type) where")
             for k, v in self.ret.items():
                 out.append(f"  {k} : {self.kind(v)}")
             out.append("")
         doc = (s.doc + "\n" if s.doc else "") + f"translated from `{s.module}.{s.qualname}` ({self.src_loc}, sha256 of the function source {self.src_sha[:16]})"
+        if getattr(self, "part", ""):
+            doc += "\n" + self.part
         if getattr(self, "inlined", None):
             doc += "\ninlined callees: " + ", ".join(f"`{n}`" for n in self.inlined)
         out.append(f"/-- {doc} -/")
-        ps = " ".join(self.params)
-        out.append(f"def {s.name} ({ps} : α) : {self.ret_type()} :=" if self.params else f"def {s.name} : {self.ret_type()} :=")
+        out.append(f"def {s.name} {self.binders()}: {self.ret_type()} :=")
         for n, e in self.lets:
             out.append(f"  let {n} := {e}")
         r = self.ret
@@ -372,14 +513,56 @@ class Result:
             out.append(f"  {r.lean}")
         return "\n".join(out) + "\n"
 
+    def binders(self) -> str:
+        """`(a b : α) (m : Bool) (c : α) ` — consecutive inputs of one type share a binder group"""
+        bools = getattr(self, "bools", None) or set(self.spec.bool_inputs)
+        groups: list[tuple[str, list[str]]] = []
+        for p in self.params:
+            t = "Bool" if p in bools else "α"
+            if groups and groups[-1][0] == t:
+                groups[-1][1].append(p)
+            else:
+                groups.append((t, [p]))
+        return "".join(f"({' '.join(ns)} : {t}) " for t, ns in groups)
+
     def driver_op(self, ns: str, opname: str) -> str:
-        args = " ".join(f"(arg a {i})" for i in range(len(self.params)))
+        bools = getattr(self, "bools", None) or set(self.spec.bool_inputs)
+        args = " ".join((f'(a.getD {i} "0" == "1")' if p in bools else f"(arg a {i})") for i, p in enumerate(self.params))
         toks = ", ".join((f"h ({acc})" if kind == "α" else (f"toString ({acc})" if kind == "Nat" else f"b ({acc})")) for acc, kind, _ in self.fields())
         return (f'  ("{opname}", fun a =>\n    let r := {ns}.{self.spec.name} (α := Float) {args}\n'
                 f'    " ".intercalate [{toks}])')
 
 
+class _Skip(ast.stmt):
+    """synthetic statement: a range of top-level statements that is left out (FnSpec.skip)"""
+    _fields = ()
+
+    def __init__(self, stmts):
+        super().__init__()
+        self.stmts = stmts
+
+
+def _top_assigns(stmt) -> set:
+    """the local names a top-level statement assigns directly"""
+    ts = []
+    if isinstance(stmt, ast.Assign):
+        ts = stmt.targets
+    elif isinstance(stmt, (ast.AugAssign, ast.AnnAssign)):
+        ts = [stmt.target]
+    out = set()
+    for t in ts:
+        for n in ast.walk(t):
+            if isinstance(n, ast.Name) and isinstance(n.ctx, ast.Store):
+                out.add(n.id)
+    return out
+
+
 class Translator:
+    # defaults for translators of inlined callees (created without __init__): no class source, no split reductions
+    cls = None
+    red_name: dict = {}
+    reduced: dict = {}
+
     def __init__(self, spec: FnSpec, repo_src: Path):
         import importlib
         self.spec = spec
@@ -391,12 +574,15 @@ class Translator:
         node = None
         scope = tree.body
         self.enclosing: list = []   # the functions `spec.qualname` is nested in (closures), outermost first
+        self.cls = None
         for part in spec.qualname.split("."):
             if isinstance(node, ast.FunctionDef):
                 self.enclosing.append(node)
             node = next((n for n in scope if isinstance(n, (ast.FunctionDef, ast.ClassDef)) and n.name == part), None)
             if node is None:
                 raise Unsupported(f"{spec.module}.{spec.qualname}: `{part}` not found in the source")
+            if isinstance(node, ast.ClassDef):
+                self.cls = node
             scope = node.body
         if not isinstance(node, ast.FunctionDef):
             raise Unsupported(f"{spec.qualname} is not a function")
@@ -422,16 +608,21 @@ class Translator:
             for n in (v if isinstance(v, (tuple, list)) else (v,)):
                 reg(n)
 
+        self.bool_names: set = set()     # inputs of type Bool / 0-d inputs, over this spec and every sub-spec (input names are
+        self.scalar_names: set = set()   # global to the generated definition)
+
         def reg_spec(sp, seen):
             if id(sp) in seen:
                 return
             seen.add(id(sp))
+            self.bool_names |= set(sp.bool_inputs)
+            self.scalar_names |= set(sp.scalars)
             for v in sp.sym_attrs.values():
                 for n in (v if isinstance(v, (tuple, list)) else (v,)):
                     if n not in self.params:
                         reg(n)
             for v in sp.opaque.values():
-                for n in (v if isinstance(v, (tuple, list)) else (v,)):
+                for n in (v if isinstance(v, (tuple, list)) else tuple(v.values()) if isinstance(v, dict) else (v,)):
                     if n not in self.params:
                         reg(n)
             for v in sp.opaque_locals.values():
@@ -445,6 +636,23 @@ class Translator:
             if sp.inf_name is not None and sp.inf_name not in self.params:
                 reg(sp.inf_name)
         reg_spec(spec, set())
+        for v in spec.sym_kwargs.values():
+            reg(v)
+        # reductions: one fresh 0-d input per occurrence, in source order
+        self.red_name: dict[int, str] = {}
+        self.reduced: dict[str, object] = {}
+        count: dict[str, int] = {}
+        calls = [c for c in ast.walk(node) if isinstance(c, ast.Call) and dotted(c.func) in spec.reductions]
+        for c in sorted(calls, key=lambda c: (c.lineno, c.col_offset)):
+            base = spec.reductions[dotted(c.func)]
+            k = count.get(base, 0)
+            count[base] = k + 1
+            self.red_name[id(c)] = f"{base}{k}"
+            reg(f"{base}{k}")
+        for v in spec.sym_locals.values():
+            if v not in self.params:
+                reg(v)
+        self.skipped_names: set = set()
         self.inlined: list = []      # (callee, AST dump) of every inlined working-tree function, for the source hash
         self.sites: dict = {}        # (call path, lineno, col) -> lean name of a per-call-site opaque input
         self.site_count: dict = {}   # id(list of per-call-site names) -> number of sites named so far
@@ -466,12 +674,36 @@ class Translator:
         self.used.add(n)
         return n
 
+    def inp(self, n: str):
+        """the symbol of a declared input"""
+        if n in self.bool_names:
+            return SymB(n)
+        return Sym(n, scalar=n in self.scalar_names or n in self.red_name.values())
+
+    def sc(self, *vals) -> bool:
+        """0-d: every operand is a constant or a 0-d symbol"""
+        for v in vals:
+            if isinstance(v, Sym):
+                if not v.scalar:
+                    return False
+            elif isinstance(v, (Masked, SymB, SymI, SymL, Partial, Poison, tuple, list, dict, OpaqueObj)):
+                return False
+            elif isinstance(v, np.ndarray) and v.ndim > 0:
+                return False
+        return True
+
+    def method_of_class(self, func) -> ast.FunctionDef | None:
+        """`self.name` where `name` is a method of the translated function's class in the source"""
+        if self.spec.inline_self and self.cls is not None and isinstance(func, ast.Attribute) and isinstance(func.value, ast.Name) and func.value.id == "self":
+            return next((n for n in self.cls.body if isinstance(n, ast.FunctionDef) and n.name == func.attr), None)
+        return None
+
     def bind(self, pyname: str, val):
         """introduce a `let` for a symbolic value and return the atom"""
         if isinstance(val, Sym):
             n = self.fresh(pyname)
             self.lets.append((n, val.lean))
-            return Sym(n)
+            return Sym(n, val.scalar)
         if isinstance(val, SymB):
             n = self.fresh(pyname)
             self.lets.append((n, val.lean))
@@ -484,17 +716,35 @@ class Translator:
             n = self.fresh(pyname)
             self.lets.append((f"{n} : List α", val.lean))
             return SymL(n, val.n)
+        if isinstance(val, Masked):
+            atom = isinstance(val.val, (Sym, SymB)) and val.val.lean.replace("_", "a").replace(".", "a").isalnum()
+            return val if atom else val.like(self.bind(pyname, val.val))
         if isinstance(val, tuple):
             return type(val)(self.bind(f"{pyname}{i}", v) for i, v in enumerate(val))
         return val
 
     @staticmethod
     def symbolic(v) -> bool:
-        if isinstance(v, (Sym, SymB, SymI, SymL, Masked, Poison)):
+        if isinstance(v, (Sym, SymB, SymI, SymL, Masked, Poison, OpaqueObj, _Unknown, Partial)):
             return True
         if isinstance(v, (tuple, list)):
             return any(Translator.symbolic(x) for x in v)
+        if isinstance(v, dict):
+            return any(Translator.symbolic(x) for x in v.values())
         return False
+
+    def materialise(self, pyname: str, v: Partial) -> Sym:
+        """an `np.empty_like` array is read: what no store defined is a fresh input `<name>Uninit`"""
+        n = self.fresh(f"{pyname}Uninit")
+        self.params.append(n)
+        acc = Sym(n)
+        for m, val in v.stores:
+            acc = self.ite(m, val, acc)
+        return self.bind(pyname, acc)
+
+    @staticmethod
+    def negation_of(a: SymB, b: SymB) -> bool:
+        return a.lean == f"(!{b.lean})" or b.lean == f"(!{a.lean})"
 
     def S(self, v) -> str:
         """lean text of a real-valued operand"""
@@ -512,6 +762,10 @@ class Translator:
             raise Unsupported("an idealised grid (a list) used as a number")
         if isinstance(v, (tuple, list)):
             raise Unsupported("a sequence used as a number")
+        if isinstance(v, Partial):
+            raise Unsupported("an uninitialised array (np.empty_like) is used before it was bound to a name")
+        if v is None:
+            raise Unsupported("None used as a number")
         if isinstance(v, np.ndarray) and v.ndim == 0:
             v = v[()]
         if isinstance(v, (float, np.floating)) and not isinstance(v, LitF):
@@ -523,8 +777,8 @@ class Translator:
 
     def N(self, v) -> str:
         """operand of + - * /: a Boolean mask counts as 1.0 / 0.0 (numpy's cast of bool to float64)"""
-        if isinstance(v, SymB):
-            return f"(if {v.lean} then (1.0 : α) else (0.0 : α))"
+        if isinstance(v, SymB) or (isinstance(v, Masked) and isinstance(v.val, SymB)):
+            return f"(if {self.B(v)} then (1.0 : α) else (0.0 : α))"
         return self.S(v)
 
     @staticmethod
@@ -555,6 +809,8 @@ class Translator:
         raise Unsupported(f"expected a non-negative integer index, got {v!r}")
 
     def B(self, v) -> str:
+        if isinstance(v, Masked):
+            return self.B(v.val)
         if isinstance(v, SymB):
             return v.lean
         if isinstance(v, (bool, np.bool_)):
@@ -577,6 +833,8 @@ class Translator:
             if isinstance(sub, ast.Name):
                 if sub.id in env and self.symbolic(env[sub.id]):
                     return False
+                if sub.id not in env and sub.id in getattr(self, "skipped_names", ()):
+                    raise Unsupported(f"local `{sub.id}` is read but was assigned in the skipped code and is not declared in sym_locals")
             elif isinstance(sub, ast.Attribute):
                 p = dotted(sub)
                 if p is not None and (p in self.spec.sym_attrs or p in stored):
@@ -585,8 +843,10 @@ class Translator:
                     return False
             elif isinstance(sub, ast.Call):
                 p = dotted(sub.func)
-                if p is not None and (p in self.spec.opaque or p in self.spec.inline):
+                if p is not None and (p in self.spec.opaque or p in self.spec.inline or p in self.spec.reductions):
                     return False
+                if self.method_of_class(sub.func) is not None:
+                    return False  # a method of the object may read symbolic state: it is inlined, never run live
                 if isinstance(sub.func, (ast.Name, ast.Attribute)):
                     try:
                         f = eval(compile(ast.Expression(body=sub.func), "<callee>", "eval"), self.globals, self.locals(st))
@@ -624,6 +884,18 @@ class Translator:
             # the same expression over the reals (a folded double would be a different real number)
             if isinstance(node, (ast.BinOp, ast.UnaryOp)) and isinstance(v, (float, np.floating)) and not isinstance(node.op, (ast.BitAnd, ast.BitOr, ast.Invert, ast.Not)):
                 return getattr(self, "ev_" + type(node).__name__)(node, st)
+            # likewise casts of literals and arithmetic spelled as a function: `self.dtype(1e3)` stays `1e3`,
+            # `np.reciprocal(-6.34)` stays `1/(-6.34)`
+            if isinstance(node, ast.Call) and isinstance(v, (float, np.floating)) and all(k.arg == "dtype" for k in node.keywords):
+                f = self.resolve(node.func, st)
+                try:
+                    special = f in CASTS or f in ARITH_FUNCS
+                except TypeError:
+                    special = False
+                if special and f in CASTS:   # only casts of literals / of arithmetic on literals
+                    special = len(node.args) == 1 and isinstance(node.args[0], (ast.Constant, ast.UnaryOp, ast.BinOp))
+                if special and 1 <= len(node.args) <= 2 and math.isfinite(float(v)):
+                    return self.ev_Call(node, st)
             return v
         m = getattr(self, "ev_" + type(node).__name__, None)
         if m is None:
@@ -631,9 +903,15 @@ class Translator:
         return m(node, st)
 
     def ev_Name(self, node, st):
-        v = st[0][node.id]
+        env = st[0]
+        if node.id not in env:
+            raise Unsupported(f"local `{node.id}` is read but was not assigned on the translated path (assigned in skipped code "
+                              "and not declared in sym_locals?)")
+        v = env[node.id]
         if isinstance(v, Poison):
             raise Unsupported(f"local `{v.name}` is declared unread (opaque_locals) but is used")
+        if isinstance(v, Partial):
+            v = env[node.id] = self.materialise(node.id, v)
         return v
 
     def ev_Attribute(self, node, st):
@@ -644,14 +922,28 @@ class Translator:
                 return stored[p]
             if p in self.spec.sym_attrs:
                 v = self.spec.sym_attrs[p]
-                return tuple(Sym(n) for n in v) if isinstance(v, (tuple, list)) else Sym(v)
-        if node.attr == "pi":
-            return Sym("Scalar.pi")
+                return tuple(self.inp(n) for n in v) if isinstance(v, (tuple, list)) else self.inp(v)
+        if node.attr == "pi" and isinstance(node.value, ast.Name) and self.globals.get(node.value.id) in (np, math):
+            return Sym("Scalar.pi", scalar=True)
         base = self.ev(node.value, st)
         if isinstance(base, (Sym, Masked, Vec)) and node.attr in ("value", "real", "T"):
             return base
         if isinstance(base, SymL) and node.attr == "size":
             return base.n
+        if isinstance(base, OpaqueObj):
+            key = base.prefix + node.attr
+            if key in base.paths:
+                return self.inp(base.paths[key])
+            if any(k.startswith(key + ".") for k in base.paths):
+                return OpaqueObj(base.paths, key + ".")
+            raise Unsupported(f"attribute `{ast.unparse(node)}` of an opaque result is not declared in the spec")
+        if isinstance(base, tuple) and node.attr == "shape" and self.symbolic(base):
+            return (len(base), UNKNOWN)  # a parameter declared as k unpacked arrays of unknown common length
+        if not self.symbolic(base):
+            try:
+                return getattr(base, node.attr)   # a concrete object reached through a stored attribute
+            except AttributeError as e:
+                raise Unsupported(f"`{ast.unparse(node)}`: {e}")
         raise Unsupported(f"attribute `{ast.unparse(node)}` of a symbolic value")
 
     def ev_Tuple(self, node, st):
@@ -662,28 +954,48 @@ class Translator:
     def ev_UnaryOp(self, node, st):
         v = self.ev(node.operand, st)
         if isinstance(node.op, ast.USub):
-            return self.lift(lambda x: Sym(f"(-{self.S(x)})"), v)
+            return self.lift(lambda x: self.wrap(Sym(f"(-{self.S(x)})", self.sc(x)), x), v)
         if isinstance(node.op, ast.UAdd):
             return v
         if isinstance(node.op, (ast.Invert, ast.Not)):
-            return SymB(f"(!{self.B(v)})")
+            return self.wrap(SymB(f"(!{self.B(v)})"), v)
         raise Unsupported(ast.unparse(node))
+
+    def same_mask(self, *vals):
+        """operands read under Boolean masks must have been read under the same one (same kept elements)"""
+        ms = {v.masks() for v in vals if isinstance(v, Masked)}
+        if len(ms) > 1:
+            raise Unsupported("arrays read under different Boolean masks are combined")
+
+    def wrap(self, res, *vals):
+        """the result of an elementwise operation on masked reads is a value on the same kept elements"""
+        self.same_mask(*vals)
+        m = next((v for v in vals if isinstance(v, Masked)), None)
+        return res if (m is None or isinstance(res, Masked) or not isinstance(res, (Sym, SymB))) else m.like(res)
 
     def arith(self, op, a, b, text=""):
         if self.is_vec(a) or self.is_vec(b):
             if isinstance(a, tuple) and not isinstance(a, Vec) or isinstance(b, tuple) and not isinstance(b, Vec):
                 raise Unsupported(f"arithmetic between an array and a Python tuple in `{text}`")
             return self.lift(lambda x, y: self.arith(op, x, y, text), a, b)
-        if isinstance(op, (ast.BitAnd, ast.BitOr)) and (isinstance(a, SymB) or isinstance(b, SymB)):
+        return self.wrap(self.arith0(op, a, b, text), a, b)
+
+    def arith0(self, op, a, b, text=""):
+        def is_b(v):
+            return isinstance(v, SymB) or (isinstance(v, Masked) and isinstance(v.val, SymB))
+        if isinstance(op, (ast.BitAnd, ast.BitOr)) and (is_b(a) or is_b(b)):
             return SymB(f"({self.B(a)} {'&&' if isinstance(op, ast.BitAnd) else '||'} {self.B(b)})")
+        sc = self.sc(a, b)
         if isinstance(op, (ast.Add, ast.Sub, ast.Mult, ast.Div)):
-            if isinstance(a, (SymB, bool, np.bool_)) and isinstance(b, (SymB, bool, np.bool_)):
+            if (is_b(a) or isinstance(a, (bool, np.bool_))) and (is_b(b) or isinstance(b, (bool, np.bool_))):
                 raise Unsupported(f"arithmetic between two Boolean arrays in `{text}`")
             o = {ast.Add: "+", ast.Sub: "-", ast.Mult: "*", ast.Div: "/"}[type(op)]
-            return Sym(f"({self.N(a)} {o} {self.N(b)})")
+            return Sym(f"({self.N(a)} {o} {self.N(b)})", sc)
         if isinstance(op, ast.Mod):
-            return Sym(f"({self.S(a)} - {self.S(b)} * Scalar.floor ({self.S(a)} / {self.S(b)}))")
+            return Sym(f"({self.S(a)} - {self.S(b)} * Scalar.floor ({self.S(a)} / {self.S(b)}))", sc)
         if isinstance(op, ast.Pow):
+            if self.spec.scalar_pow and sc and isinstance(b, (int, np.integer, float, np.floating)) and not isinstance(b, (bool, np.bool_)):
+                return Sym(f"(Scalar.pow {self.S(a)} {self.S(b)})", True)   # 0-d base: libm pow
             if not self.symbolic(b):
                 if isinstance(b, (int, np.integer, float, np.floating)) and float(b) == 2.0:
                     return Sym(f"({self.S(a)} * {self.S(a)})")
@@ -691,7 +1003,7 @@ class Translator:
                     return a
                 if isinstance(b, (float, np.floating)) and float(b) == 0.5:
                     return Sym(f"(Scalar.sqrt {self.S(a)})")
-            return Sym(f"(Scalar.pow {self.S(a)} {self.S(b)})")
+            return Sym(f"(Scalar.pow {self.S(a)} {self.S(b)})", sc)
         raise Unsupported(f"operator {type(op).__name__} in `{text}`")
 
     def ev_BinOp(self, node, st):
@@ -702,11 +1014,25 @@ class Translator:
         return self.arith(node.op, a, b, ast.unparse(node))
 
     def cmp(self, op, a, b):
+        r = self.cmp0(op, a, b)
+        return self.wrap(r, a, b) if isinstance(r, SymB) else r
+
+    def cmp0(self, op, a, b):
         if isinstance(op, (ast.Is, ast.IsNot)):
             # identity tests against None etc.: a symbolic value is a provided array
             r = (a is b) if not (self.symbolic(a) or self.symbolic(b)) else False
             return r if isinstance(op, ast.Is) else (not r)
+        if not (self.symbolic(a) or self.symbolic(b)):
+            import operator
+            py = {ast.Lt: operator.lt, ast.LtE: operator.le, ast.Gt: operator.gt, ast.GtE: operator.ge, ast.Eq: operator.eq,
+                  ast.NotEq: operator.ne, ast.In: lambda x, y: x in y, ast.NotIn: lambda x, y: x not in y}.get(type(op))
+            if py is None:
+                raise Unsupported(f"comparison {type(op).__name__}")
+            return py(a, b)
+        if isinstance(a, _Unknown) or isinstance(b, _Unknown):
+            raise Unsupported("a comparison depends on the (unknown) number of events")
         A, Bv = self.S(a), self.S(b)
+
         if isinstance(op, ast.Lt):
             return SymB(f"(Scalar.ltb {A} {Bv})")
         if isinstance(op, ast.LtE):
@@ -727,25 +1053,39 @@ class Translator:
         for op, r in zip(node.ops, node.comparators):
             right = self.ev(r, st)
             c = self.cmp(op, left, right)
-            acc = c if acc is None else SymB(f"({self.B(acc)} && {self.B(c)})")
+            if acc is None:
+                acc = c
+            elif isinstance(acc, (SymB, Masked)) or isinstance(c, (SymB, Masked)):
+                acc = self.wrap(SymB(f"({self.B(acc)} && {self.B(c)})"), acc, c)
+            else:
+                acc = acc and c
             left = right
         return acc
 
     def ev_BoolOp(self, node, st):
         vals = [self.ev(v, st) for v in node.values]
+        if not any(self.symbolic(v) for v in vals):
+            r = vals[0]
+            for v in vals[1:]:
+                r = (r and v) if isinstance(node.op, ast.And) else (r or v)
+            return r
         j = " && " if isinstance(node.op, ast.And) else " || "
-        return SymB("(" + j.join(self.B(v) for v in vals) + ")")
+        return self.wrap(SymB("(" + j.join(self.B(v) for v in vals) + ")"), *vals)
 
-    def ite(self, c, a, b):
+    def ite(self, c, a, b, scalar=False):
+        """`scalar`: the selection is a Python-level one (statement `if`, conditional expression) — `np.where` and mask
+        stores give arrays"""
         if isinstance(a, Vec) or isinstance(b, Vec):
-            return self.lift(lambda x, y: self.ite(c, x, y), a, b)
+            return self.lift(lambda x, y: self.ite(c, x, y, scalar), a, b)
         if isinstance(a, tuple) and isinstance(b, tuple) and len(a) == len(b):
-            return tuple(self.ite(c, x, y) for x, y in zip(a, b))
+            return tuple(self.ite(c, x, y, scalar) for x, y in zip(a, b))
         if isinstance(a, dict) and isinstance(b, dict):
             keys = list(a) + [k for k in b if k not in a]
             if set(a) != set(b):
                 raise Unsupported("the two branches store different attributes")
-            return {k: self.ite(c, a[k], b[k]) for k in keys}
+            return {k: self.ite(c, a[k], b[k], scalar) for k in keys}
+        if isinstance(a, Masked) or isinstance(b, Masked):
+            return self.wrap(self.ite(c, a.val if isinstance(a, Masked) else a, b.val if isinstance(b, Masked) else b, scalar), a, b)
         if isinstance(a, SymB) or isinstance(b, SymB):
             return SymB(f"(if {c.lean} then {self.B(a)} else {self.B(b)})")
         if (isinstance(a, SymI) or is_int(a)) and (isinstance(b, SymI) or is_int(b)) and not any(is_int(x) and int(x) < 0 for x in (a, b)):
@@ -753,21 +1093,34 @@ class Translator:
             # (a negative concrete integer is no `Nat`: the value is then read as a real number, which cannot index a table)
             vals = (a.vals if isinstance(a, SymI) else {int(a)}) | (b.vals if isinstance(b, SymI) else {int(b)})
             return SymI(f"(if {c.lean} then {self.I(a)} else {self.I(b)})", vals)
-        return Sym(f"(if {c.lean} then {self.S(a)} else {self.S(b)})")
+        return Sym(f"(if {c.lean} then {self.S(a)} else {self.S(b)})", scalar and self.sc(a, b))
 
     def ev_IfExp(self, node, st):
         t = self.ev(node.test, st)
         if not self.symbolic(t):
             return self.ev(node.body if t else node.orelse, st)
-        return self.ite(t, self.ev(node.body, st), self.ev(node.orelse, st))
+        if not isinstance(t, SymB):
+            raise Unsupported(f"condition `{ast.unparse(node.test)}`")
+        return self.ite(t, self.ev(node.body, st), self.ev(node.orelse, st), scalar=True)
 
     def ev_Subscript(self, node, st):
         base = self.ev(node.value, st)
+        if isinstance(base, (Sym, Masked)) and self.is_broadcast_view(node.slice):
+            return base
         idx = self.ev(node.slice, st)
         if isinstance(idx, SymB):
             return Masked(base, idx)
+        if isinstance(idx, Masked) and isinstance(idx.val, SymB) and isinstance(base, Masked) and base.masks() == idx.masks():
+            return Masked(base, idx.val)   # a mask computed on the compressed array selects among its kept elements
+        if idx is INDEX and isinstance(base, Sym):
+            return base
         if isinstance(base, tuple) and isinstance(idx, (int, np.integer)):
             return base[int(idx)]
+        if isinstance(base, dict) and not self.symbolic(idx):
+            try:
+                return base[idx]
+            except KeyError:
+                raise Unsupported(f"`{ast.unparse(node)}`: no such key in the declared keyword arguments")
         nm = dotted(node.value)
         if nm in self.spec.opaque_reads and isinstance(base, np.ndarray):
             ix = idx if isinstance(idx, tuple) else (idx,)
@@ -777,7 +1130,7 @@ class Translator:
                 bad = sorted(v for v in (i.vals if isinstance(i, SymI) else {int(i)}) if not (0 <= v < base.shape[ax]))
                 if bad:
                     raise Unsupported(f"`{ast.unparse(node)}`: index {ax} can take the value(s) {bad[:4]}, outside 0..{base.shape[ax] - 1}")
-            return Sym(self.spec.opaque_reads[nm])
+            return self.inp(self.spec.opaque_reads[nm])
         if isinstance(idx, SymI) and isinstance(base, np.ndarray) and base.ndim == 1 and base.dtype.kind == "f":
             # `table[i]`: sound only if every value the index can take is a valid non-negative position
             bad = sorted(v for v in idx.vals if not (0 <= v < len(base)))
@@ -790,6 +1143,17 @@ class Translator:
                 self.tables[key] = self.bind(nm, Sym(f"(List.getD [{elems}] {idx.lean} (Scalar.ofNat 0))"))
             return self.tables[key]
         raise Unsupported(f"subscript `{ast.unparse(node)}`")
+
+    @staticmethod
+    def is_broadcast_view(sl) -> bool:
+        """`x[..., None]`, `x[None, :]`, `x[:, None]`, `x[:]`: only new axes, full slices and an ellipsis"""
+        elts = sl.elts if isinstance(sl, ast.Tuple) else [sl]
+
+        def ok(e):
+            if isinstance(e, ast.Constant) and (e.value is None or e.value is Ellipsis):
+                return True
+            return isinstance(e, ast.Slice) and e.lower is None and e.upper is None and e.step is None
+        return len(elts) >= 1 and all(ok(e) for e in elts)
 
     def ev_Call(self, node, st):
         p = dotted(node.func)
@@ -804,9 +1168,22 @@ class Translator:
                         raise Unsupported(f"`{p}` is called at more sites than the {len(v)} names declared for it")
                     self.site_count[id(v)] = k + 1
                     self.sites[key] = v[k]
-                return Sym(self.sites[key])
-            return tuple(Sym(n) for n in v) if isinstance(v, tuple) else Sym(v)
+                return self.inp(self.sites[key])
+            if isinstance(v, dict):
+                return OpaqueObj(v)
+            return tuple(self.inp(n) for n in v) if isinstance(v, tuple) else self.inp(v)
+        if p is not None and p in self.spec.reductions:
+            return self.reduction(node, st)
+        meth = self.method_of_class(node.func)
+        if meth is not None:
+            return self.inline_method(meth, node, st)
         f = self.resolve(node.func, st)
+        for k in node.keywords:
+            if k.arg == "dtype":   # checked first: the constructors below do not look at their other arguments
+                dt = self.ev(k.value, st)
+                if not any(dt is d or (isinstance(d, str) and isinstance(dt, str) and dt == d) for d in DOUBLE_DTYPES) \
+                        and not (f is np.zeros_like and not self.symbolic(dt) and np.issubdtype(np.dtype(dt), np.integer)):
+                    raise Unsupported(f"`{ast.unparse(node)}`: dtype={getattr(dt, '__name__', dt)}; only binary64 arithmetic is modelled")
         if f is np.ones or f is np.zeros:
             # reached only when the shape argument is read from a symbolic array: the constant of the elementwise view
             return 1.0 if f is np.ones else 0.0
@@ -843,24 +1220,62 @@ class Translator:
                 base = self.ev(node.func.value, st)
                 if isinstance(base, (Sym, Masked)) and node.func.attr in ("copy", "astype", "ravel", "flatten", "squeeze", "item"):
                     return base
+                if isinstance(base, dict) and node.func.attr in ("keys", "values", "items", "get") and not any(self.symbolic(a) for a in args):
+                    return getattr(base, node.func.attr)(*args)
             raise Unsupported(f"call `{ast.unparse(node)}` with symbolic arguments")
+        if f is builtins.isinstance and len(args) == 2 and self.symbolic(args[0]) and not self.symbolic(args[1]):
+            # a symbolic value is a float64 array (or a 0-d float64 / a group of such arrays): never an int, str, None, dict …
+            ts = args[1] if isinstance(args[1], tuple) else (args[1],)
+            never = (int, str, bool, bytes, complex, dict, set, frozenset, type(None), np.integer, np.bool_)
+            if all(isinstance(t, type) and issubclass(t, never) for t in ts):
+                return False
+            if all(t is np.ndarray for t in ts) and isinstance(args[0], (Sym, Masked)) and not self.sc(args[0]):
+                return True
+            raise Unsupported(f"`{ast.unparse(node)}` of a symbolic value")
+        try:
+            idealised = f in IDEALISED
+        except TypeError:
+            idealised = False
+        if not idealised and not (self.symbolic(args) or self.symbolic(kw)):
+            try:
+                v = f(*args, **kw)   # nothing symbolic reaches the callee: evaluated in the live module
+            except Exception as e:  # noqa
+                raise Unsupported(f"cannot evaluate `{ast.unparse(node)}` in the live module: {type(e).__name__}: {e}")
+            try:
+                spelled = f in CASTS or f in ARITH_FUNCS
+            except TypeError:
+                spelled = False
+            # … except a cast / an arithmetic function of constants with a float result, which is not folded (see `ev`)
+            if not (spelled and isinstance(v, (float, np.floating)) and math.isfinite(float(v)) and 1 <= len(args) <= 2 and set(kw) <= {"dtype"}):
+                return v
+        r = self.call_table(f, args, kw, node)
+        return self.wrap(r, *args, *kw.values())
+
+    def call_table(self, f, args, kw, node):
         try:
             hashable = f.__hash__ is not None
         except Exception:  # noqa
             hashable = False
         if hashable and f in UNARY and len(args) == 1:
-            return self.lift(lambda x: Sym(f"({UNARY[f]} {self.S(x)})"), args[0])
+            return self.lift(lambda x: Sym(f"({UNARY[f]} {self.S(x)})", self.sc(x)), args[0])
         if hashable and f in IDENTITY and len(args) >= 1:
-            return args[0]
+            a0 = args[0]
+            if f in CASTS and isinstance(a0, (int, np.integer)) and not isinstance(a0, (bool, np.bool_)):
+                return float(a0)   # float(1) is 1.0
+            return a0
+        if f in (np.power, math.pow) and len(args) == 2:
+            return self.arith(ast.Pow(), args[0], args[1], ast.unparse(node))
+        if f is np.negative and len(args) == 1:
+            return self.lift(lambda x: Sym(f"(-{self.S(x)})", self.sc(x)), args[0])
         if hashable and f in BINARY and len(args) == 2:
             o = BINARY[f]
             if o in "+-*/":
-                return self.lift(lambda x, y: Sym(f"({self.S(x)} {o} {self.S(y)})"), args[0], args[1])
-            return self.lift(lambda x, y: Sym(f"({o} {self.S(x)} {self.S(y)})"), args[0], args[1])
+                return self.lift(lambda x, y: Sym(f"({self.S(x)} {o} {self.S(y)})", self.sc(x, y)), args[0], args[1])
+            return self.lift(lambda x, y: Sym(f"({o} {self.S(x)} {self.S(y)})", self.sc(x, y)), args[0], args[1])
         if f is np.reciprocal:
-            return self.lift(lambda x: Sym(f"((1.0 : α) / {self.S(x)})"), args[0])
+            return self.lift(lambda x: Sym(f"((1.0 : α) / {self.S(x)})", self.sc(x)), args[0])
         if f is np.square:
-            return self.lift(lambda x: Sym(f"({self.S(x)} * {self.S(x)})"), args[0])
+            return self.lift(lambda x: Sym(f"({self.S(x)} * {self.S(x)})", self.sc(x)), args[0])
         if f is np.sum and len(args) == 1:
             axis = kw.get("axis")
             if not isinstance(args[0], Vec):
@@ -871,7 +1286,15 @@ class Translator:
         if f is np.clip:
             lo = args[1] if len(args) > 1 else kw.get("a_min")
             hi = args[2] if len(args) > 2 else kw.get("a_max")
-            return Sym(f"(Scalar.minS (Scalar.maxS {self.S(args[0])} {self.S(lo)}) {self.S(hi)})")
+            if lo is None or hi is None:
+                raise Unsupported(f"`{ast.unparse(node)}`: one-sided clip")
+            if self.spec.clip_ite:
+                x = self.S(args[0])
+                if not isinstance(args[0], Sym) or not x.isidentifier():
+                    x = self.bind("clip_arg", Sym(x, self.sc(args[0]))).lean
+                return Sym(f"(if Scalar.ltb {x} {self.S(lo)} then {self.S(lo)} else if Scalar.ltb {self.S(hi)} {x} then {self.S(hi)} else {x})",
+                           self.sc(args[0], lo, hi))
+            return Sym(f"(Scalar.minS (Scalar.maxS {self.S(args[0])} {self.S(lo)}) {self.S(hi)})", self.sc(args[0], lo, hi))
         if f is np.where and len(args) == 3:
             return self.ite(SymB(self.B(args[0])), args[1], args[2])
         if f is np.logical_and:
@@ -885,9 +1308,9 @@ class Translator:
             fn = "Scalar.minS" if f in (np.min, np.amin, builtins.min) else "Scalar.maxS"
             acc = xs[0]
             for x in xs[1:]:
-                acc = Sym(f"({fn} {self.S(acc)} {self.S(x)})")
+                acc = Sym(f"({fn} {self.S(acc)} {self.S(x)})", self.sc(acc, x))
             return acc
-        if f in (np.zeros_like, np.ones_like, np.full_like, np.empty_like):
+        if f in (np.zeros_like, np.ones_like, np.full_like, np.empty_like, np.empty, np.full):
             if f is np.zeros_like:
                 dt = kw.get("dtype")
                 if dt is not None and not self.symbolic(dt) and np.issubdtype(np.dtype(dt), np.integer):
@@ -895,10 +1318,70 @@ class Translator:
                 return 0.0
             if f is np.ones_like:
                 return 1.0
-            if f is np.full_like:
-                return args[1]
-            return 0.0
+            if f in (np.full_like, np.full):
+                return args[1] if len(args) > 1 else kw["fill_value"]
+            return Partial()   # unspecified contents, defined by later Boolean-mask stores
         raise Unsupported(f"call `{ast.unparse(node)}`: {getattr(f, '__name__', f)} with symbolic arguments is not in the translation table")
+
+    def reduction(self, node, st):
+        """`np.sum(term)` etc. over a symbolic array: export the term, take the reduced value as a fresh 0-d input"""
+        name = self.red_name.get(id(node))
+        if name is None:
+            raise Unsupported(f"reduction `{ast.unparse(node)}` outside the translated function's own body")
+        if not node.args:
+            raise Unsupported(f"reduction `{ast.unparse(node)}` without a positional argument")
+        term = self.ev(node.args[0], st)
+        for k in node.keywords:
+            if self.symbolic(self.ev(k.value, st)):
+                raise Unsupported(f"reduction `{ast.unparse(node)}` with a symbolic keyword argument")
+        if not isinstance(term, (Sym, Masked)) or self.sc(term):
+            raise Unsupported(f"reduction `{ast.unparse(node)}` over something that is not a symbolic array")
+        text = self.S(term)
+        old = self.reduced.get(name + "Arg")
+        if old is not None and old.lean != text:
+            raise Unsupported(f"reduction `{ast.unparse(node)}` is reached with two different terms (it sits after a symbolic branch)")
+        self.reduced[name + "Arg"] = Sym(text)
+        return self.inp(name)
+
+    def inline_method(self, fn: ast.FunctionDef, node: ast.Call, st):
+        """`self.method(args)`: the method's body is translated in place, on the same object state"""
+        if fn.decorator_list:
+            raise Unsupported(f"`{ast.unparse(node)}`: the method `{fn.name}` is decorated; only plain methods are inlined")
+        if self.depth >= 8:
+            raise Unsupported(f"`{ast.unparse(node)}`: method calls nested deeper than 8")
+        a = fn.args
+        if a.vararg or a.kwarg or a.kwonlyargs or a.posonlyargs:
+            raise Unsupported(f"`{ast.unparse(node)}`: the signature of `{fn.name}` is not a plain parameter list")
+        names = [x.arg for x in a.args]
+        if not names or names[0] != "self":
+            raise Unsupported(f"`{ast.unparse(node)}`: `{fn.name}` is not an instance method")
+        names = names[1:]
+        if any(isinstance(x, ast.Starred) for x in node.args) or any(k.arg is None for k in node.keywords):
+            raise Unsupported(f"`{ast.unparse(node)}`: starred arguments")
+        env: dict = {}
+        vals = [self.ev(x, st) for x in node.args]
+        if len(vals) > len(names):
+            raise Unsupported(f"`{ast.unparse(node)}`: too many arguments for `{fn.name}`")
+        for n, v in zip(names, vals):
+            env[n] = v
+        for k in node.keywords:
+            if k.arg not in names or k.arg in env:
+                raise Unsupported(f"`{ast.unparse(node)}`: keyword `{k.arg}`")
+            env[k.arg] = self.ev(k.value, st)
+        for arg, d in zip(a.args[len(a.args) - len(a.defaults):], a.defaults):
+            if arg.arg not in env:
+                env[arg.arg] = eval(compile(ast.Expression(body=d), "<default>", "eval"), self.globals, {})
+        missing = [n for n in names if n not in env]
+        if missing:
+            raise Unsupported(f"`{ast.unparse(node)}`: missing argument(s) {missing}")
+        if hasattr(self, "inlined"):
+            self.inlined.append((f"{self.spec.module}.{self.cls.name}.{fn.name}", ast.dump(fn, include_attributes=False)))
+        self.depth += 1
+        try:
+            r = self.block(fn.body, (env, st[1]))
+        finally:
+            self.depth -= 1
+        return None if (r is None or r == ("__none__",)) else r
 
     # ------------------------------------------------------------------ inlining of working-tree callees
     _ast_cache: dict = {}
@@ -969,18 +1452,20 @@ class Translator:
             # object, and the tables keyed by local names (opaque_locals, opaque_reads) only inside the function they were written for
             sp = FnSpec(mod.__name__, fdef.name, me.name, sym_attrs=(me.sym_attrs if self_obj is me.self_obj and self_obj is not None else {}),
                         opaque=me.opaque, inline=me.inline, self_obj=self_obj,
-                        inf_name=me.inf_name, exact_consts=me.exact_consts, ideal_linspace=me.ideal_linspace)
+                        inf_name=me.inf_name, exact_consts=me.exact_consts, ideal_linspace=me.ideal_linspace,
+                        scalar_pow=me.scalar_pow, clip_ite=me.clip_ite)   # the callee is read with the caller's numeric conventions
         else:
             sp = FnSpec(mod.__name__, fdef.name, me.name, sym_attrs=sub.sym_attrs, opaque=sub.opaque,
                         opaque_locals=sub.opaque_locals, opaque_reads=sub.opaque_reads, inline=sub.inline, self_obj=self_obj,
                         inf_name=(sub.inf_name if sub.inf_name is not None else me.inf_name), exact_consts=sub.exact_consts,
-                        ideal_linspace=sub.ideal_linspace)
+                        ideal_linspace=sub.ideal_linspace, scalar_pow=sub.scalar_pow, clip_ite=sub.clip_ite)
         ch = Translator.__new__(Translator)
         ch.spec, ch.mod, ch.fn, ch.file_text, ch.globals = sp, mod, fdef, text, dict(vars(mod))
         ch.src_sha, ch.src_loc, ch.src_text = self.src_sha, self.src_loc, ""
         ch.lets, ch.used, ch.params = self.lets, self.used, self.params
         ch.repo_src, ch.sites, ch.site_count, ch.local_sites = self.repo_src, self.sites, self.site_count, self.local_sites
         ch.tables, ch.needs, ch.enclosing = self.tables, self.needs, []      # shared with the caller; a callee is never a closure
+        ch.bool_names, ch.scalar_names = self.bool_names, self.scalar_names
         ch.path = self.path + ((node.lineno, node.col_offset),)
         ch.depth = self.depth + 1
         self.inlined.append((f"{mod.__name__}.{getattr(fdef, 'qualname', fdef.name)}", ast.dump(fdef, include_attributes=False)))
@@ -1049,7 +1534,7 @@ class Translator:
     def assign(self, target, val, st, masked_ok=True):
         env, stored = st
         if isinstance(target, ast.Name):
-            env[target.id] = self.bind(target.id, val) if self.symbolic(val) else val
+            env[target.id] = val if isinstance(val, Partial) else (self.bind(target.id, val) if self.symbolic(val) else val)
         elif isinstance(target, (ast.Tuple, ast.List)):
             vals = list(val) if isinstance(val, (tuple, list)) else None
             if vals is None:
@@ -1067,14 +1552,40 @@ class Translator:
             stored[p] = self.bind(target.attr, val) if self.symbolic(val) else val
         elif isinstance(target, ast.Subscript):
             idx = self.ev(target.slice, st)
+            raw = env.get(target.value.id) if isinstance(target.value, ast.Name) else None
+            empty = isinstance(raw, Partial)   # an `np.empty_like` array is not READ by a store into it
+            old = raw if empty else self.ev(target.value, st)
+            if isinstance(idx, Masked) and isinstance(idx.val, SymB):
+                # the array and the mask both live on the same kept elements (both were computed from reads under one mask)
+                if not (isinstance(old, Masked) and old.masks() == idx.masks()):
+                    raise Unsupported(f"store to `{ast.unparse(target)}`: the mask was computed under other masks than the array")
+                if isinstance(val, Masked):
+                    if val.masks() != idx.masks() + (idx.val.lean,):
+                        raise Unsupported("masked store whose right-hand side was read under a different mask")
+                    val = val.val
+                elif self.symbolic(val) and not self.sc(val):
+                    raise Unsupported("masked store of an array that was not read under the same mask")
+                self.assign(target.value, old.like(self.ite(idx.val, val, old.val)), st)
+                return
             if not isinstance(idx, SymB):
                 raise Unsupported(f"store to `{ast.unparse(target)}` (only Boolean-mask stores are translated)")
-            old = self.ev(target.value, st)
+            if isinstance(old, Masked):
+                raise Unsupported(f"store to `{ast.unparse(target)}`: a full-length mask applied to a compressed array")
             if isinstance(val, Masked):
-                if val.mask.lean != idx.lean:
+                if val.masks() != (idx.lean,):
                     raise Unsupported("masked store whose right-hand side was read under a different mask")
                 val = val.val
-            new = self.ite(idx, val, old)
+            if isinstance(val, Partial):
+                raise Unsupported("an uninitialised array is stored into another array")
+            if empty:
+                # store into an `np.empty_like` array: remember it; `m` then `~m` defines the array everywhere
+                if len(old.stores) == 1 and self.negation_of(old.stores[0][0], idx):
+                    m0, v0 = old.stores[0]
+                    new = self.ite(m0, v0, val) if idx.lean == f"(!{m0.lean})" else self.ite(idx, val, v0)
+                else:
+                    new = Partial(old.stores + [(idx, val)])
+            else:
+                new = self.ite(idx, val, old)
             self.assign(target.value, new, st)
         else:
             raise Unsupported(f"assignment target `{ast.unparse(target)}`")
@@ -1099,7 +1610,7 @@ class Translator:
                     if self.local_sites.setdefault(key, (s.lineno, s.col_offset)) != (s.lineno, s.col_offset):
                         raise Unsupported(f"the opaque local `{nm}` is assigned by more than one statement")
                     v = self.spec.opaque_locals[nm]
-                    st[0][nm] = Poison(nm) if v is None else Vec(Sym(x) for x in v) if isinstance(v, list) else Sym(v)
+                    st[0][nm] = Poison(nm) if v is None else Vec(self.inp(x) for x in v) if isinstance(v, list) else self.inp(v)
                     continue
                 if any(isinstance(x, ast.Name) and x.id in self.spec.opaque_locals for t in tg for x in ast.walk(t)):
                     raise Unsupported(f"the opaque local in `{ast.unparse(s)[:60]}` is assigned in an unpacking")
@@ -1132,6 +1643,8 @@ class Translator:
                 if not self.symbolic(t):
                     r = self.block((s.body if t else s.orelse) + rest, st)
                     return r
+                if not isinstance(t, SymB):
+                    raise Unsupported(f"`if {ast.unparse(s.test)}`: the condition is not a symbolic Boolean")
                 st1 = (dict(st[0]), dict(st[1]))
                 st2 = (dict(st[0]), dict(st[1]))
                 t = self.bind("c", t)
@@ -1139,12 +1652,12 @@ class Translator:
                 r2 = self.block(s.orelse + rest, st2)
                 if r1 is None and r2 is None:
                     # both fall through the end of the function: merge the stored attributes
-                    merged = self.ite(t, dict(st1[1]), dict(st2[1]))
+                    merged = self.ite(t, dict(st1[1]), dict(st2[1]), scalar=True)
                     st[1].clear(); st[1].update(merged)
                     return None
                 if r1 is None or r2 is None:
                     raise Unsupported("one branch returns and the other falls off the end of the function")
-                return self.ite(t, r1, r2)
+                return self.ite(t, r1, r2, scalar=True)
             elif isinstance(s, ast.Raise):
                 raise Unsupported(f"`{ast.unparse(s)}` is reached on the translated path")
             elif isinstance(s, ast.Pass):
@@ -1160,6 +1673,17 @@ class Translator:
                         return r
             elif isinstance(s, ast.Assert):
                 continue
+            elif isinstance(s, _Skip):
+                env, stored = st
+                for sub in s.stmts:
+                    for n in ast.walk(sub):
+                        if isinstance(n, ast.Name) and isinstance(n.ctx, ast.Store):
+                            env.pop(n.id, None)
+                        elif isinstance(n, ast.Attribute) and isinstance(n.ctx, ast.Store) and dotted(n) is not None:
+                            stored.pop(dotted(n), None)
+                for py, ln in self.spec.sym_locals.items():
+                    if py in self.skipped_names:
+                        env[py] = self.inp(ln)
             else:
                 raise Unsupported(f"statement `{type(s).__name__}`: {ast.unparse(s)[:80]}")
         return None
@@ -1187,7 +1711,12 @@ class Translator:
                 continue
             if n in sp.sym_params:
                 v = sp.sym_params[n]
-                env[n] = Vec(Sym(x) for x in v) if isinstance(v, list) else tuple(Sym(x) for x in v) if isinstance(v, tuple) else Sym(v)
+                env[n] = Vec(self.inp(x) for x in v) if isinstance(v, list) else tuple(self.inp(x) for x in v) if isinstance(v, tuple) else self.inp(v)
+                for mpath in sp.on_kept.get(n, ()):
+                    m = self.inp(sp.sym_attrs[mpath]) if mpath in sp.sym_attrs else None
+                    if not isinstance(m, SymB) or isinstance(env[n], tuple):
+                        raise Unsupported(f"on_kept[{n}]: `{mpath}` is not a declared Boolean attribute")
+                    env[n] = Masked(env[n], m)
             elif n in sp.concrete:
                 env[n] = sp.concrete[n]
             elif n in defaults:
@@ -1197,10 +1726,67 @@ class Translator:
         if a.vararg:
             env[a.vararg.arg] = ()
         if a.kwarg:
-            env[a.kwarg.arg] = {}
+            env[a.kwarg.arg] = {**dict(sp.concrete.get(a.kwarg.arg, {})), **{k: self.inp(v) for k, v in sp.sym_kwargs.items()}}
+        elif sp.sym_kwargs:
+            raise Unsupported(f"{sp.qualname} has no ** parameter any more")
+        body = list(self.fn.body)
+        part = ""
+
+        def marker(name, last):
+            idx = [i for i, stmt in enumerate(body) if name in _top_assigns(stmt)]
+            if not idx:
+                raise Unsupported(f"{sp.qualname}: no top-level statement assigns `{name}` (fragment/skip marker)")
+            return idx[-1] if last else idx[0]
+        if sp.skip is not None:
+            j0, j1 = marker(sp.skip[0], False), marker(sp.skip[1], True)
+            if j1 < j0:
+                raise Unsupported(f"{sp.qualname}: skip markers `{sp.skip[0]}` .. `{sp.skip[1]}` are out of order")
+            sk = _Skip(body[j0:j1 + 1])
+            for sub in sk.stmts:
+                self.skipped_names |= {n.id for n in ast.walk(sub) if isinstance(n, ast.Name) and isinstance(n.ctx, ast.Store)}
+            part += (f"lines {body[j0].lineno}-{body[j1].end_lineno} (first assignment of `{sp.skip[0]}` .. last assignment of "
+                     f"`{sp.skip[1]}`) are NOT translated; inputs standing for their results: "
+                     + ", ".join(f"{k} -> {v}" for k, v in sp.sym_locals.items() if k in self.skipped_names))
+            body = body[:j0] + [sk] + body[j1 + 1:]
+        if sp.fragment is not None:
+            i0 = marker(sp.fragment[0], False) if sp.fragment[0] else 0
+            i1 = marker(sp.fragment[1], True) if sp.fragment[1] else len(body) - 1
+            if i1 < i0:
+                raise Unsupported(f"{sp.qualname}: fragment markers `{sp.fragment[0]}` .. `{sp.fragment[1]}` are out of order")
+            part = (f"fragment: lines {body[i0].lineno}-{body[i1].end_lineno} "
+                    f"({'first assignment of `' + sp.fragment[0] + '`' if sp.fragment[0] else 'start'} .. "
+                    f"{'last assignment of `' + sp.fragment[1] + '`' if sp.fragment[1] else 'end'})" + ("; " + part if part else ""))
+            body = body[i0:i1 + 1]
+        for py, ln in sp.sym_locals.items():
+            if py not in self.skipped_names:
+                if sp.fragment is None:
+                    raise Unsupported(f"{sp.qualname}: sym_locals `{py}` is neither assigned in the skipped range nor before a fragment")
+                env[py] = self.inp(ln)
         st = (env, {})
-        r = self.block(self.fn.body, st)
-        if r is None or r == ("__none__",):
+        r = self.block(body, st)
+
+        def fin(v):
+            if isinstance(v, Masked):
+                if not sp.kept_view:
+                    raise Unsupported("a masked view is returned or stored (declare `kept_view` to read the function on one kept element)")
+                return fin(v.val)   # the value on a kept element (the per-element reading of a compressed array)
+            if isinstance(v, tuple):
+                return tuple(fin(x) for x in v)
+            return v if isinstance(v, (Sym, SymB, SymI)) else Sym(lit(v))
+        if (r is None or r == ("__none__",)) and sp.fragment is not None and sp.outputs:
+            ret = {}
+            for k in sp.outputs:
+                if k not in env:
+                    raise Unsupported(f"{sp.qualname}: the fragment no longer assigns `{k}`")
+                v = env[k]
+                if isinstance(v, Partial):
+                    v = self.materialise(k, v)
+                v = fin(v)
+                if isinstance(v, tuple):
+                    raise Unsupported(f"{sp.qualname}: the exported local `{k}` is a tuple")
+                ret[k] = v
+            r = ret
+        elif r is None or r == ("__none__",):
             stored = st[1]
             keys = sp.outputs if sp.outputs is not None else [k for k in stored]
             ret = {}
@@ -1208,26 +1794,51 @@ class Translator:
                 kk = k if k in stored else f"self.{k}"
                 if kk not in stored:
                     raise Unsupported(f"{sp.qualname} no longer stores `{k}`")
-                v = stored[kk]
-                ret[kk.split(".")[-1]] = v if self.symbolic(v) else Sym(lit(v))
-            if not ret:
+                v = fin(stored[kk])
+                if isinstance(v, tuple):
+                    raise Unsupported(f"{sp.qualname} stores a tuple in `{k}`")
+                ret[kk.split(".")[-1]] = v
+            for k in sp.locals_out:
+                if k not in st[0]:
+                    raise Unsupported(f"{sp.qualname} has no local `{k}` any more")
+                v = fin(st[0][k])
+                if isinstance(v, tuple) or k in ret:
+                    raise Unsupported(f"{sp.qualname}: local `{k}` cannot be exported")
+                ret[k] = v
+            if not ret and not self.reduced:
                 raise Unsupported(f"{sp.qualname} returns nothing and stores nothing")
             r = ret
         else:
-            def fin(v):
-                if isinstance(v, Masked):
-                    raise Unsupported("a masked view is returned")
-                if isinstance(v, tuple):
-                    return tuple(fin(x) for x in v)
-                return v if isinstance(v, (Sym, SymB, SymI)) else Sym(lit(v))
+            if not sp.kept_view:
+                if isinstance(r, tuple) and r and all(isinstance(x, Masked) and not x.outer for x in r) and len({x.mask.lean for x in r}) == 1:
+                    # compress under one mask: per element (kept?, values…)
+                    r = (r[0].mask,) + tuple(x.val for x in r)
+                elif isinstance(r, Masked) and not r.outer:
+                    r = (r.mask, r.val)
             r = fin(r)
             if sp.also_return:
                 missing = [n for n in sp.also_return if n not in st[0]]
                 if missing:
                     raise Unsupported(f"{sp.qualname} has no local(s) {missing} at its end")
                 r = tuple(fin(st[0][n]) for n in sp.also_return) + (r if isinstance(r, tuple) else (r,))
+        if len(self.reduced) != len(self.red_name):
+            raise Unsupported(f"{sp.qualname}: a declared reduction is not reached")
+        if self.reduced:
+            # reductions were split: the result is a structure of the exported terms and the returned values
+            out = {n + "Arg": self.reduced[n + "Arg"] for n in self.red_name.values()}   # source order, like the inputs
+            if isinstance(r, dict):
+                out.update(r)
+            elif isinstance(r, tuple):
+                if any(isinstance(x, tuple) for x in r):
+                    raise Unsupported("nested tuple returned next to split reductions")
+                out.update({f"ret{i}": x for i, x in enumerate(r)})
+            else:
+                out["ret"] = r
+            r = out
         res = Result(sp, self.params, self.lets, r, self.src_sha, self.src_loc)
         res.prelude = "Numpy" in self.needs
+        res.bools = set(self.bool_names)
+        res.part = part
         res.inlined = list(dict.fromkeys(n for n, _ in self.inlined))
         if self.inlined:
             res.src_sha = hashlib.sha256((self.src_sha + "".join(d for _, d in self.inlined)).encode()).hexdigest()
@@ -1241,7 +1852,8 @@ def translate(spec: FnSpec, repo_src: Path) -> Result:
 def emit_module(ns: str, results: list[Result], header: str) -> str:
     src = ("import NssVerif.Model.Scalar\n" + ("import NssVerif.Model.Numpy\n" if any(getattr(r, "prelude", False) for r in results) else "")
            + "\n/-! GENERATED by harness/pytrans.py from the Python source of the working tree.  Do not edit.\n"
-           + header + " -/\nnamespace " + ns + "\nvariable {α : Type} [Scalar α]\n\n")
+           + header + " -/\n" + ("set_option linter.unusedVariables false\n" if any(r.spec.skip is not None for r in results) else "")
+           + "namespace " + ns + "\nvariable {α : Type} [Scalar α]\n\n")
     for r in results:
         src += r.lean() + "\n"
     src += f"end {ns}\n"
